@@ -204,3 +204,10 @@ for _p in ("C01", "C03", "C09"):
 # the contracts assumed on scipy.special by the symbolic runs, checked (bounded) on the reachable argument range
 for _p in ("C01", "C05", "C10"):
     CHECKS[_p].harnesses.append("contracts.numeric:DependencyContracts")
+
+# UNBOUNDED in the angular momenta and the moment order: generic-element execution of the real recursion kernel
+for _p in ("C01", "C07", "C16"):
+    CHECKS[_p].harnesses.append("contracts.unbounded:MomentRecursionAnyL")
+    CHECKS[_p].assumptions.append("contracts.unbounded (any extent): engine/generic.py's reading of numpy basic indexing, right-aligned broadcasting and "
+                                  "in-order slice assignment; range(lo, hi) iterates in order; the Obara-Saika relations characterise the 1-D integrals "
+                                  "(tied to the closed-form specification by the per-shape contract up to extent 8)")
